@@ -103,6 +103,15 @@ def stream_replay(rep, wd, tier, seed):
 
 def gen_history(r):
     """A write history biased to block boundaries; returns list of byte strings."""
+    if r.random() < 0.2:
+        # one long write, then a tail of several very short writes around the end of the block
+        first = r.choice((P - 9, P - 7, P - 5, P - 3, P - 1, 2 * P - 6, 2 * P - 2, P + 1005, r.randrange(P - 12, P)))
+        tail = [r.randrange(1, 8) for _ in range(r.choice((2, 2, 3, 4, 6)))]
+        out, pos = [], 0
+        for n_ in [first] + tail:
+            out.append(CODE[pos:pos + n_])
+            pos += n_
+        return out
     k = r.choice((1, 1, 2, 2, 3, 3, 4, 5, 6, 8))
     style = r.choice(('code', 'code', 'pad', 'zero', 'mix', 'rand'))
     chunks = []
